@@ -487,6 +487,9 @@ contract(
         "reserved": f"all(all(implies(m not in {_SRC}, result[a] != m) for m in {_ORDER}) for a in result)",
         # only characters legal in a PostScript glyph name
         "legal": "all(legal(result[a]) for a in result)",
+        # FINDING: (not registered; see notes/C11.md "Findings") a final name can be EMPTY when every character of the
+        # requested name is illegal, e.g. a source glyph named "-" (no code point, no public.postscriptNames):
+        # "non-empty": "all(len(result[a]) > 0 for a in result)",
         # every final name is the name the glyph asks for (see _BASE), or that name plus a '.N' disambiguator
         "shape": "all(" + _SHAPE.format(m="result") + " for a in result)",
     },
